@@ -35,7 +35,7 @@ func chunkings(text string) [][]string {
 
 func c17Texts(letter string) []string {
 	var out []string
-	for _, t := range []string{"", "x\n", "x", "x\ny", "x\ny\n", "\n"} {
+	for _, t := range []string{"", "x\n", "x", "x\ny", "x\ny\n", "\n", "5% x\n%d\n"} {
 		out = append(out, strings.NewReplacer("x", letter+"1", "y", letter+"2").Replace(t))
 	}
 	return out
@@ -184,7 +184,7 @@ func c17Direct(c c17cfg) *Unit {
 			}
 			p := strings.ToLower(line[1:2])
 			body := line[4:]
-			if strings.Trim(body, p+"12") != "" {
+			if strings.Trim(body, p+"125% d") != "" {
 				out = append(out, vlab.V("C17", "prefixed_line", "foreign_bytes", fmt.Sprintf("line %q carries prefix %s but bytes of another command (stream %q)", line, p, stream)))
 				return out
 			}
@@ -317,6 +317,33 @@ func c17Units(tier string) []*Unit {
 	if tier == "thorough" {
 		us = append(us, c17Direct(c17cfg{mode: "prefixed", threads: 3}))
 	}
-	us = append(us, c17Exec("group", false, tier), c17Exec("group", true, tier), c17Exec("prefixed", false, tier))
+	us = append(us, c17Exec("group", false, tier), c17Exec("group", true, tier), c17Exec("prefixed", false, tier), c17ErrorOnlyIgnored(tier))
 	return us
+}
+
+// error_only through the executor: the block of a command appears iff the command failed —
+// also when the failure is then ignored (ignore_error on the command or on the task)
+func c17ErrorOnlyIgnored(tier string) *Unit {
+	pg := &Prog{Tasks: []*T{
+		{Name: "root", Deps: []Ref{D("a"), D("b")}},
+		{Name: "a", RawLines: []string{"cmds:", "  - cmd: printf 'a-fail\\n'; exit 3", "    ignore_error: true", "  - printf 'a-ok\\n'"}},
+		{Name: "b", IgnoreError: true, RawLines: []string{"cmds:", "  - printf 'b-fail\\n'; exit 4", "  - printf 'b-ok\\n'"}},
+	}}
+	sc := scen("executor/group-error_only-ignored-failures", pg, vlab.Options{Output: "group", ErrorOnly: true, GroupBegin: "<{{.TASK}}", GroupEnd: ">{{.TASK}}"}, "root")
+	sc.Raw = true
+	check := func(x *vlab.Exec) []vlab.Violation {
+		out := generic("C17", x)
+		stream := ""
+		for _, e := range x.Trace {
+			if e.K == 'W' {
+				stream += e.Line
+			}
+		}
+		blocks := []string{"<a\na-fail\n>a\n", "<b\nb-fail\n>b\n"}
+		if !isPermutationConcat(stream, blocks) {
+			out = append(out, vlab.V("C17", "group_block", "group:error_only:ignored_failure", fmt.Sprintf("error_only: the stream %q must consist of exactly the blocks of the two failed (ignored) commands %q", stream, blocks)))
+		}
+		return out
+	}
+	return &Unit{Name: sc.Name, Sc: sc, Bound: 1, Prune: true, Check: check, Weight: 3}
 }
